@@ -260,6 +260,11 @@ func checkFunction(e *Enc, tier string, seed int, keepDir string) []*Result {
 
 func race(e *Enc, o *Obligation, ms, seed int) *Result {
 	script := e.script(o, true)
+	if d := os.Getenv("GVC_DUMP"); d != "" {
+		// debugging aid: keep the standalone query of every raced obligation
+		os.MkdirAll(d, 0o755)
+		os.WriteFile(filepath.Join(d, mangle(o.Name)+".smt2"), []byte(script), 0o644)
+	}
 	ctx, cancel := context.WithCancel(context.Background())
 	defer cancel()
 	type ans struct {
